@@ -180,6 +180,7 @@ func runC10(c *Ctx) (int, error) {
 	var tcases [][]string
 	var ecases [][]string
 	var ccases [][]string
+	var qcases [][]string
 	gt := &tlc.Run{SpecDir: specDir, Scratch: filepath.Join(c.Work, "gentokens"), Module: "Gen_Tokens", Workers: 16, Timeout: 25 * time.Minute,
 		Cfg: fmt.Sprintf("CONSTANTS\n  Tier = %q\n  Seed = %d\nINIT Init\nNEXT Next\nINVARIANTS Export\nCHECK_DEADLOCK FALSE\n", c.Tier, c.Seed),
 		OnLine: func(tag, js string) {
@@ -190,6 +191,16 @@ func runC10(c *Ctx) (int, error) {
 				if json.Unmarshal([]byte(js), &t) == nil {
 					mu.Lock()
 					ecases = append(ecases, t.Expr)
+					mu.Unlock()
+				}
+			}
+			if tag == "QCASE" {
+				var t struct {
+					Chars []string `json:"chars"`
+				}
+				if json.Unmarshal([]byte(js), &t) == nil {
+					mu.Lock()
+					qcases = append(qcases, t.Chars)
 					mu.Unlock()
 				}
 			}
@@ -407,6 +418,26 @@ func runC10(c *Ctx) (int, error) {
 			appendTest(text, true, "chars")
 		}
 	}
+	// (d'') the inside of string literals, wherever the grammar has one
+	sort.Slice(qcases, func(i, j int) bool { return strings.Join(qcases[i], "") < strings.Join(qcases[j], "") })
+	for _, cs := range qcases {
+		if hung() {
+			break
+		}
+		var b strings.Builder
+		for _, ch := range cs {
+			if ch == "@BYTE255" {
+				b.WriteByte(0xFF)
+			} else {
+				b.WriteString(ch)
+			}
+		}
+		q := "\"" + b.String() + "\""
+		for _, text := range []string{"[opcode(" + q + ")]\nstruct A {\n\tint32 a;\n}\n", "const string c = " + q + ";\n", "const guid g = " + q + ";\n", "import " + q + "\n",
+			"struct A {\n\t[deprecated(" + q + ")]\n\tint32 a;\n}\n", "enum E {\n\t[deprecated(" + q + ")]\n\tA = 1;\n}\n"} {
+			appendTest(text, true, "quoted")
+		}
+	}
 	// (e) every token-prefix of valid schemas (a definition cut short must not swallow what follows)
 	nprefix := 0
 	for ci, pc := range pcases {
@@ -486,7 +517,7 @@ func runC10(c *Ctx) (int, error) {
 	cov := Coverage{"states": plr.Distinct + gtr.Distinct + gpr.Distinct + st, "transitions": plr.Generated + gtr.Generated + gpr.Generated + tr,
 		"traces_validated_against_impl": total["ok"] + total["known"], "events_total": len(events), "evaluations": len(events),
 		"distinct_nontrivial": len(icases) + len(tcases), "samples": samples,
-		"rule":             fmt.Sprintf("(a) EVERY item sequence up to length %d over {opcode, flags, readonly, line/block comment, blank line, import, 5 definition kinds, stray byte, unterminated comment, unterminated string} with the verdict of ParserLoop.tla (model-checked: NoLeak, AttachExactlyOnce, NoSilentDrop, Terminates); (b') EVERY string of up to 3 characters (4 in thorough) and a seed-rotating 1/8 (1/40) of the next length over 22 characters (letters, digits, x, e, every byte that starts a multi-byte token, quote, backslash, each white space, ';', '[', '_', byte 255), written without separators, alone and in 7 grammatical positions (after a definition, inside a struct body, as enum value, as const value, directly after a block comment, as message index, as opcode); (b) EVERY string of up to 3 lexemes (4 in thorough, sampled 1/23 by seed) over a 51-lexeme alphabet with every token kind and the lexical-error lexemes, judged by the property's append test; (c) valid schemas x every reader failure offset x {custom error, ErrUnexpectedEOF} x 3 reader styles; (d) EVERY [flags] member expression of up to 4 lexemes over {1, -1, 64, 0x10, A, <<, >>, |, &, (, )} in an unsigned and two signed enums; (e) EVERY token-prefix of the valid schemas of the C11 universe, judged by the append test", maxLen),
+		"rule":             fmt.Sprintf("(a) EVERY item sequence up to length %d over {opcode, flags, readonly, line/block comment, blank line, import, 5 definition kinds, stray byte, unterminated comment, unterminated string} with the verdict of ParserLoop.tla (model-checked: NoLeak, AttachExactlyOnce, NoSilentDrop, Terminates); (b'') EVERY string literal of up to 4 characters (and 1/8 of those of 5) over {a, quote, backslash, space, newline, x, 1, -, byte 255} as opcode, string const, guid const, import path and deprecation message; (b') EVERY string of up to 3 characters (4 in thorough) and a seed-rotating 1/8 (1/40) of the next length over 22 characters (letters, digits, x, e, every byte that starts a multi-byte token, quote, backslash, each white space, ';', '[', '_', byte 255), written without separators, alone and in 7 grammatical positions (after a definition, inside a struct body, as enum value, as const value, directly after a block comment, as message index, as opcode); (b) EVERY string of up to 3 lexemes (4 in thorough, sampled 1/23 by seed) over a 51-lexeme alphabet with every token kind and the lexical-error lexemes, judged by the property's append test; (c) valid schemas x every reader failure offset x {custom error, ErrUnexpectedEOF} x 3 reader styles; (d) EVERY [flags] member expression of up to 4 lexemes over {1, -1, 64, 0x10, A, <<, >>, |, &, (, )} in an unsigned and two signed enums; (e) EVERY token-prefix of the valid schemas of the C11 universe, judged by the append test", maxLen),
 		"flag_expressions": len(ecases) * 3, "token_prefixes_of_valid_schemas": nprefix,
 		"item_sequences": len(icases), "item_sequences_skipped_comment_reclosed": skippedOpen, "token_strings": len(tcases), "reader_fault_runs": nfault, "timeouts": timeouts,
 		"parserloop_states": plr.Distinct, "open_deviations": devs, "exhaustive": false, "item_sequences_exhaustive_up_to": maxLen, "token_strings_exhaustive_up_to": 3}
